@@ -134,3 +134,62 @@ func VerifC13_State() {
 	vnd.Assert(uint64(len(got)) == expected, "C13.state.nothing-else")
 	vnd.Assert(vnd.HeldLocks() == 0, "C13.state.locks-released")
 }
+
+// VerifC13_Refresh: one refresh of the Dirk accounts from an arbitrary known
+// state. A refresh that obtains nothing keeps everything already known (the
+// account map, the key list the epoch lookups run from, and so the validating
+// accounts); one that obtains accounts replaces both consistently.
+func VerifC13_Refresh() {
+	vm := &c13Validators{recs: map[phase0.BLSPubKey]*phase0.Validator{}, idx: map[phase0.BLSPubKey]phase0.ValidatorIndex{}}
+	ct := vstub.NewChainTime(0)
+	s := &Service{accounts: map[phase0.BLSPubKey]e2wtypes.Account{}, validatorsManager: vm, farFutureEpoch: c13FarFuture, currentEpochProvider: ct,
+		wallets: map[string]e2wtypes.Wallet{}, accountPaths: []string{"W1"}, processConcurrency: 2}
+	// what is already known: 0..2 accounts, all with an active validator
+	nOld := vnd.IntRange("known-accounts", 0, 2)
+	mk := func(i int) (phase0.BLSPubKey, *vstub.Account) {
+		k := phase0.BLSPubKey{byte(i + 1)}
+		acc := &vstub.Account{Tag: uint64(i + 1), Nm: "acc"}
+		acc.Key.B = k
+		vm.recs[k] = &phase0.Validator{PublicKey: k, ActivationEpoch: 0, ExitEpoch: c13FarFuture, WithdrawableEpoch: c13FarFuture, EffectiveBalance: 32}
+		vm.idx[k] = phase0.ValidatorIndex(100 + i)
+		return k, acc
+	}
+	for i := 0; i < nOld; i++ {
+		k, acc := mk(i)
+		s.accounts[k] = acc
+		s.pubKeys = append(s.pubKeys, k)
+	}
+	// what the signer returns now: 0..2 accounts starting at any of three keys
+	w := &vstub.Wallet{Nm: "W1"}
+	nNew := vnd.IntRange("returned-accounts", 0, 2)
+	first := vnd.IntRange("first-returned", 0, 2)
+	for i := 0; i < nNew; i++ {
+		_, acc := mk(first + i)
+		w.Accs = append(w.Accs, acc)
+	}
+	s.wallets["W1"] = w
+
+	s.Refresh(context.Background())
+
+	wantLo, wantN := 0, nOld
+	if nNew > 0 {
+		wantLo, wantN = first, nNew
+		vnd.Cover("C13.refresh.replaced")
+	} else if nOld > 0 {
+		vnd.Cover("C13.refresh.nothing-obtained-keeps-known")
+	}
+	vnd.Assert(len(s.accounts) == wantN, "C13.refresh.account-map-is-what-was-obtained-or-what-was-known")
+	vnd.Assert(len(s.pubKeys) == wantN, "C13.refresh.key-list-matches-account-map")
+	for i := wantLo; i < wantLo+wantN; i++ {
+		_, ok := s.accounts[phase0.BLSPubKey{byte(i + 1)}]
+		vnd.Assert(ok, "C13.refresh.account-known")
+		found := false
+		for _, k := range s.pubKeys {
+			found = found || k == phase0.BLSPubKey{byte(i + 1)}
+		}
+		vnd.Assert(found, "C13.refresh.key-listed")
+	}
+	got, err := s.ValidatingAccountsForEpoch(context.Background(), 5)
+	vnd.Assert(err == nil && len(got) == wantN, "C13.refresh.validating-accounts-are-the-known-active-ones")
+	vnd.Assert(vnd.HeldLocks() == 0 && vnd.Quiesce() == 0, "C13.refresh.locks-released-goroutines-done")
+}
